@@ -35,7 +35,7 @@ ASSUMPTIONS = [
     "WannierData.write is called with the explicit list of files that offer writing (eig, amn, mmn)",
     "classes without a usable `equals` (BKVectors, CheckPoint, WIN) are compared attribute by attribute by the harness",
 ]
-MIN_NONTRIVIAL = {"quick": 60, "thorough": 800}
+MIN_NONTRIVIAL = {"quick": 300, "thorough": 8000}
 
 TOL_F12 = 5.01e-13
 
@@ -559,9 +559,9 @@ def check_box(case):
 
 
 SUBS = [
-    Sub("eig_text", eig_st, check_eig, quick=100, thorough=2400),
-    Sub("amn_text", amn_st, check_amn, quick=100, thorough=2400),
-    Sub("mmn_text", mmn_st, check_mmn, quick=80, thorough=1600),
-    Sub("npz", npz_st, check_npz, quick=240, thorough=6400),
-    Sub("box", box_st, check_box, quick=64, thorough=1600),
+    Sub("eig_text", eig_st, check_eig, quick=480, thorough=16000),
+    Sub("amn_text", amn_st, check_amn, quick=480, thorough=16000),
+    Sub("mmn_text", mmn_st, check_mmn, quick=400, thorough=12000),
+    Sub("npz", npz_st, check_npz, quick=1200, thorough=48000),
+    Sub("box", box_st, check_box, quick=320, thorough=12000),
 ]
